@@ -364,4 +364,167 @@ theorem da_record_bytes (branch : Bool) (a : Acc) (x : Nat) (dl : Bytes) (y : Na
     rw [this, run_append, run_daCount branch a _ _ dc 13 hdc (by decide) hc]
     simp [run, step, LF]
 
+/-- the BRDA records `output_lcov` writes for one line: one per vector slot, numbered from 0 -/
+def slotRecords (l : Nat) (n : Nat) : List Bool → List (Nat × Nat × Bool)
+  | [] => []
+  | t :: v => (l, n, t) :: slotRecords l (n + 1) v
+
+def brdaRecords (bs : List (Nat × List Bool)) : List (Nat × Nat × Bool) :=
+  bs.flatMap fun lv => slotRecords lv.1 0 lv.2
+
+theorem slotRecords_any (l n : Nat) (v : List Bool) (l' i : Nat) :
+    (slotRecords l n v).any (fun r => decide (r.1 = l') && decide (r.2.1 = i) && r.2.2)
+      = (decide (l = l') && decide (n ≤ i) && v.getD (i - n) false) := by
+  induction v generalizing n with
+  | nil => simp [slotRecords]
+  | cons t v ih =>
+    simp only [slotRecords, List.any_cons, ih]
+    by_cases hl : l = l'
+    · by_cases hn : n = i
+      · subst hn
+        have : ¬ n + 1 ≤ n := by omega
+        simp [hl, this]
+      · by_cases hlt : n < i
+        · have h1 : n + 1 ≤ i := hlt
+          have h2 : i - n = (i - (n + 1)) + 1 := by omega
+          simp [hl, hn, h1, Nat.le_of_lt hlt, h2]
+        · have h1 : ¬ n + 1 ≤ i := by omega
+          have h2 : ¬ n ≤ i := by omega
+          simp [hl, hn, h1, h2]
+    · simp [hl]
+
+theorem slotRecords_filter_other (l n : Nat) (v : List Bool) (l' : Nat) (h : l ≠ l') :
+    (slotRecords l n v).filter (fun r => decide (r.1 = l')) = [] := by
+  induction v generalizing n with
+  | nil => rfl
+  | cons t v ih => simp [slotRecords, h, ih]
+
+theorem slotRecords_filter_same (l n : Nat) (v : List Bool) :
+    (slotRecords l n v).filter (fun r => decide (r.1 = l)) = slotRecords l n v := by
+  induction v generalizing n with
+  | nil => rfl
+  | cons t v ih => simp [slotRecords, ih]
+
+theorem slotRecords_foldl_max (l n : Nat) (v : List Bool) (k : Nat) (hk : k ≤ n) :
+    (slotRecords l n v).foldl (fun k r => max k (r.2.1 + 1)) k = if v = [] then k else n + v.length := by
+  induction v generalizing n k with
+  | nil => simp [slotRecords]
+  | cons t v ih =>
+    simp only [slotRecords, List.foldl_cons]
+    rw [ih (n + 1) (max k (n + 1)) (by omega)]
+    by_cases hv : v = []
+    · subst hv; simp; omega
+    · simp [hv]; omega
+
+theorem brdaRecords_any (bs : List (Nat × List Bool)) (hb : NodupKeys bs) (l i : Nat) :
+    (brdaRecords bs).any (fun r => decide (r.1 = l) && decide (r.2.1 = i) && r.2.2)
+      = (vecAt bs l).getD i false := by
+  induction bs with
+  | nil => simp [brdaRecords, vecAt]
+  | cons lv bs ih =>
+    obtain ⟨l0, v⟩ := lv
+    have hb' : NodupKeys bs := by unfold NodupKeys keys at *; simp at hb; exact hb.2
+    have hnot : l0 ∉ keys bs := by unfold NodupKeys keys at *; simp at hb; simpa [keys] using hb.1
+    have : brdaRecords ((l0, v) :: bs) = slotRecords l0 0 v ++ brdaRecords bs := by
+      simp [brdaRecords]
+    rw [this, List.any_append, slotRecords_any, ih hb']
+    by_cases hl : l0 = l
+    · subst hl
+      have hnone : get? bs l0 = none := (get?_eq_none_iff bs l0).mpr hnot
+      simp [vecAt, hnone]
+    · simp [vecAt, hl]
+
+theorem brdaRecords_length (bs : List (Nat × List Bool)) (hb : NodupKeys bs) (l : Nat) :
+    ((brdaRecords bs).filter fun r => decide (r.1 = l)).foldl (fun k r => max k (r.2.1 + 1)) 0
+      = (vecAt bs l).length := by
+  induction bs with
+  | nil => simp [brdaRecords, vecAt]
+  | cons lv bs ih =>
+    obtain ⟨l0, v⟩ := lv
+    have hb' : NodupKeys bs := by unfold NodupKeys keys at *; simp at hb; exact hb.2
+    have hnot : l0 ∉ keys bs := by unfold NodupKeys keys at *; simp at hb; simpa [keys] using hb.1
+    have : brdaRecords ((l0, v) :: bs) = slotRecords l0 0 v ++ brdaRecords bs := by
+      simp [brdaRecords]
+    rw [this, List.filter_append, List.foldl_append]
+    by_cases hl : l0 = l
+    · subst hl
+      have hnone : get? bs l0 = none := (get?_eq_none_iff bs l0).mpr hnot
+      have hfil : (brdaRecords bs).filter (fun r => decide (r.1 = l0)) = [] := by
+        rw [List.filter_eq_nil_iff]
+        intro r hr
+        simp only [brdaRecords, List.mem_flatMap] at hr
+        obtain ⟨lv, hlv, hr⟩ := hr
+        have hne : lv.1 ≠ l0 := by
+          intro e; apply hnot; rw [← e]; exact List.mem_map_of_mem (f := (·.1)) hlv
+        have := slotRecords_filter_other lv.1 0 lv.2 l0 hne
+        have hmem : r ∉ (slotRecords lv.1 0 lv.2).filter (fun r => decide (r.1 = l0)) := by
+          rw [this]; simp
+        intro hdec; exact hmem (List.mem_filter.mpr ⟨hr, hdec⟩)
+      rw [hfil, slotRecords_filter_same, slotRecords_foldl_max _ _ _ _ (Nat.le_refl 0)]
+      simp only [List.foldl_nil, vecAt, get?_cons, if_true, Option.getD_some]
+      by_cases hv : v = []
+      · simp [hv]
+      · simp [hv]
+    · rw [slotRecords_filter_other _ _ _ _ hl]
+      simp only [List.foldl_nil]
+      rw [ih hb']
+      simp [vecAt, hl]
+
+/-- re-importing the BRDA records written for a branch map rebuilds every vector -/
+theorem brda_roundtrip (bs : List (Nat × List Bool)) (hb : NodupKeys bs) (l : Nat) :
+    vecAt (brdaFold [] (brdaRecords bs)) l = vecAt bs l := by
+  apply List.ext_getElem
+  · rw [brdaFold_length]; simpa [vecAt] using brdaRecords_length bs hb l
+  · intro i h1 h2
+    have a := brdaFold_getD [] (brdaRecords bs) l i
+    rw [brdaRecords_any bs hb] at a
+    simp only [vecAt, get?_nil, Option.getD_none, List.getD_nil, Bool.false_or] at a
+    have a' : (vecAt (brdaFold [] (brdaRecords bs)) l).getD i false = (vecAt bs l).getD i false := by
+      simpa [vecAt] using a
+    rw [List.getD_eq_getElem?_getD, List.getD_eq_getElem?_getD, List.getElem?_eq_getElem h1,
+      List.getElem?_eq_getElem h2] at a'
+    simpa using a'
+
+/-- re-importing the DA records written for a line map rebuilds it -/
+theorem da_roundtrip (ls : List (Nat × Nat)) (hn : NodupKeys ls) (hfit : ∀ kv ∈ ls, kv.2 ≤ U64MAX)
+    (l : Nat) : get? (daFold {} ls).cur.lines l = get? ls l := by
+  by_cases h : ∃ r ∈ ls, r.1 = l
+  · rw [daFold_present _ _ _ h]
+    obtain ⟨r, hr, hl⟩ := h
+    have hg : get? ls l = some r.2 := by
+      subst hl; exact get?_of_mem hn hr
+    -- the only record for `l` is `r`
+    have hf : ((ls.filter fun x => decide (x.1 = l)).map (·.2)).sum = r.2 := by
+      clear hfit
+      induction ls with
+      | nil => simp at hr
+      | cons a ls ih =>
+        have hn' : NodupKeys ls := by unfold NodupKeys keys at *; simp at hn; exact hn.2
+        have hnot : a.1 ∉ keys ls := by unfold NodupKeys keys at *; simp at hn; simpa [keys] using hn.1
+        simp only [List.mem_cons] at hr
+        rcases hr with hr | hr
+        · subst hr
+          have : (ls.filter fun x => decide (x.1 = l)) = [] := by
+            rw [List.filter_eq_nil_iff]; intro x hx hd
+            simp only [decide_eq_true_eq] at hd
+            apply hnot; rw [hl, ← hd]; exact List.mem_map_of_mem (f := (·.1)) hx
+          simp [hl, this]
+        · have hne : a.1 ≠ l := by
+            intro e; apply hnot; rw [e, ← hl]; exact List.mem_map_of_mem (f := (·.1)) hr
+          have hg' : get? ls l = some r.2 := by
+            rw [get?_cons] at hg; simpa [hne] using hg
+          simp only [List.filter_cons, hne, decide_false, Bool.false_eq_true, if_false]
+          exact ih hn' hr hg'
+    rw [hf, hg]
+    have := hfit r hr
+    simp [Nat.min_eq_left this]
+  · have h' : ∀ r ∈ ls, r.1 ≠ l := fun r hr e => h ⟨r, hr, e⟩
+    rw [daFold_absent _ _ _ h']
+    have : get? ls l = none := by
+      rw [get?_eq_none_iff]; intro hm
+      simp only [keys, List.mem_map] at hm
+      obtain ⟨r, hr, e⟩ := hm; exact h' r hr e
+    rw [this]; rfl
+
+
 end Grcov.Lcov
